@@ -253,10 +253,6 @@ fn calculate_path(
     bufs: &mut CurveBuffers,
     optimized_len: &mut f64,
 ) {
-    if points.is_empty() {
-        return;
-    }
-
     let CurveBuffers {
         vertices,
         bezier,
@@ -268,6 +264,11 @@ fn calculate_path(
     *optimized_len = 0.0;
 
     vertices.clear();
+
+    if points.is_empty() {
+        return;
+    }
+
     vertices.extend(points.iter().map(|p| p.pos));
 
     let mut start = 0;
